@@ -1844,7 +1844,204 @@ _LK_FLOORS = {'quick': {'counters': {'lk-enum:case': 310,
                         'M.lk.clear-signed': 950,
                         'M.lk.dumped-text': 3300,
                         'M.lk.generated-text': 2000}},
- 'thorough': {'counters': {}, 'monitors': {}}}
+ 'thorough': {'counters': {'lk-enum:case': 6900,
+                           'lk-par:case': 3900,
+                           'lk:case': 10000,
+                           'lk:class:armor-begin-message': 3400,
+                           'lk:class:armor-begin-signature': 3400,
+                           'lk:class:armor-end-signature': 4200,
+                           'lk:class:comment': 2800,
+                           'lk:class:dash': 2700,
+                           'lk:class:dot': 2700,
+                           'lk:class:field-line': 2700,
+                           'lk:class:plus': 2700,
+                           'lk:columns:armor-begin-message:3': 3300,
+                           'lk:columns:armor-begin-message:5': 110,
+                           'lk:columns:armor-begin-signature:3': 3300,
+                           'lk:columns:armor-begin-signature:5': 130,
+                           'lk:columns:armor-end-signature:3': 4100,
+                           'lk:columns:armor-end-signature:5': 160,
+                           'lk:columns:comment:2': 170,
+                           'lk:columns:comment:3': 2500,
+                           'lk:columns:comment:5': 94,
+                           'lk:columns:dash:2': 170,
+                           'lk:columns:dash:3': 2500,
+                           'lk:columns:dash:5': 87,
+                           'lk:columns:dot:2': 150,
+                           'lk:columns:dot:3': 2500,
+                           'lk:columns:dot:5': 92,
+                           'lk:columns:field-line:2': 180,
+                           'lk:columns:field-line:3': 2500,
+                           'lk:columns:field-line:5': 94,
+                           'lk:columns:plus:2': 160,
+                           'lk:columns:plus:3': 2500,
+                           'lk:columns:plus:5': 94,
+                           'lk:config:BuildInfo:armor-begin-message': 530,
+                           'lk:config:BuildInfo:armor-begin-signature': 510,
+                           'lk:config:BuildInfo:armor-end-signature': 660,
+                           'lk:config:BuildInfo:comment': 390,
+                           'lk:config:BuildInfo:dash': 380,
+                           'lk:config:BuildInfo:dot': 380,
+                           'lk:config:BuildInfo:field-line': 380,
+                           'lk:config:BuildInfo:plus': 370,
+                           'lk:config:Changes:armor-begin-message': 510,
+                           'lk:config:Changes:armor-begin-signature': 520,
+                           'lk:config:Changes:armor-end-signature': 650,
+                           'lk:config:Changes:comment': 370,
+                           'lk:config:Changes:dash': 380,
+                           'lk:config:Changes:dot': 380,
+                           'lk:config:Changes:field-line': 370,
+                           'lk:config:Changes:plus': 380,
+                           'lk:config:Dsc:armor-begin-message': 540,
+                           'lk:config:Dsc:armor-begin-signature': 530,
+                           'lk:config:Dsc:armor-end-signature': 660,
+                           'lk:config:Dsc:comment': 370,
+                           'lk:config:Dsc:dash': 370,
+                           'lk:config:Dsc:dot': 400,
+                           'lk:config:Dsc:field-line': 380,
+                           'lk:config:Dsc:plus': 380,
+                           'lk:config:PdiffIndex:armor-begin-message': 820,
+                           'lk:config:PdiffIndex:armor-begin-signature': 810,
+                           'lk:config:PdiffIndex:armor-end-signature': 940,
+                           'lk:config:PdiffIndex:comment': 870,
+                           'lk:config:PdiffIndex:dash': 850,
+                           'lk:config:PdiffIndex:dot': 860,
+                           'lk:config:PdiffIndex:field-line': 880,
+                           'lk:config:PdiffIndex:plus': 870,
+                           'lk:config:Release-apt-ftparchive:armor-begin-message': 510,
+                           'lk:config:Release-apt-ftparchive:armor-begin-signature': 520,
+                           'lk:config:Release-apt-ftparchive:armor-end-signature': 670,
+                           'lk:config:Release-apt-ftparchive:comment': 400,
+                           'lk:config:Release-apt-ftparchive:dash': 380,
+                           'lk:config:Release-apt-ftparchive:dot': 380,
+                           'lk:config:Release-apt-ftparchive:field-line': 380,
+                           'lk:config:Release-apt-ftparchive:plus': 370,
+                           'lk:config:Release-dak:armor-begin-message': 510,
+                           'lk:config:Release-dak:armor-begin-signature': 510,
+                           'lk:config:Release-dak:armor-end-signature': 680,
+                           'lk:config:Release-dak:comment': 380,
+                           'lk:config:Release-dak:dash': 380,
+                           'lk:config:Release-dak:dot': 370,
+                           'lk:config:Release-dak:field-line': 370,
+                           'lk:config:Release-dak:plus': 380,
+                           'lk:field-is-last-of-paragraph': 5600,
+                           'lk:is-the-last-record-of-the-last-structured-field': 4200,
+                           'lk:layout:armor-begin-message:bare': 89,
+                           'lk:layout:armor-begin-message:list': 1200,
+                           'lk:layout:armor-begin-message:mixed': 700,
+                           'lk:layout:armor-begin-message:multi': 1200,
+                           'lk:layout:armor-begin-message:single': 130,
+                           'lk:layout:armor-begin-signature:bare': 84,
+                           'lk:layout:armor-begin-signature:list': 1200,
+                           'lk:layout:armor-begin-signature:mixed': 660,
+                           'lk:layout:armor-begin-signature:multi': 1200,
+                           'lk:layout:armor-begin-signature:single': 130,
+                           'lk:layout:armor-end-signature:bare': 98,
+                           'lk:layout:armor-end-signature:list': 1500,
+                           'lk:layout:armor-end-signature:mixed': 850,
+                           'lk:layout:armor-end-signature:multi': 1600,
+                           'lk:layout:armor-end-signature:single': 140,
+                           'lk:layout:comment:bare': 81,
+                           'lk:layout:comment:list': 1000,
+                           'lk:layout:comment:mixed': 580,
+                           'lk:layout:comment:multi': 1000,
+                           'lk:layout:comment:single': 100,
+                           'lk:layout:dash:bare': 84,
+                           'lk:layout:dash:list': 980,
+                           'lk:layout:dash:mixed': 570,
+                           'lk:layout:dash:multi': 1000,
+                           'lk:layout:dash:single': 100,
+                           'lk:layout:dot:bare': 80,
+                           'lk:layout:dot:list': 990,
+                           'lk:layout:dot:mixed': 570,
+                           'lk:layout:dot:multi': 1000,
+                           'lk:layout:dot:single': 100,
+                           'lk:layout:field-line:bare': 77,
+                           'lk:layout:field-line:list': 990,
+                           'lk:layout:field-line:mixed': 560,
+                           'lk:layout:field-line:multi': 1000,
+                           'lk:layout:field-line:single': 100,
+                           'lk:layout:plus:bare': 88,
+                           'lk:layout:plus:list': 1000,
+                           'lk:layout:plus:mixed': 570,
+                           'lk:layout:plus:multi': 1000,
+                           'lk:layout:plus:single': 100,
+                           'lk:marked-records:2': 800,
+                           'lk:marked-records:3+': 3100,
+                           'lk:mode:build': 4200,
+                           'lk:mode:text': 6600,
+                           'lk:paragraph-with-begin-then-end-look-alike': 1600,
+                           'lk:record:armor-begin-message:first': 1200,
+                           'lk:record:armor-begin-message:last': 910,
+                           'lk:record:armor-begin-message:middle': 830,
+                           'lk:record:armor-begin-message:only': 460,
+                           'lk:record:armor-begin-signature:first': 1200,
+                           'lk:record:armor-begin-signature:last': 920,
+                           'lk:record:armor-begin-signature:middle': 820,
+                           'lk:record:armor-begin-signature:only': 460,
+                           'lk:record:armor-end-signature:first': 1000,
+                           'lk:record:armor-end-signature:last': 1700,
+                           'lk:record:armor-end-signature:middle': 1000,
+                           'lk:record:armor-end-signature:only': 530,
+                           'lk:record:comment:first': 840,
+                           'lk:record:comment:last': 830,
+                           'lk:record:comment:middle': 730,
+                           'lk:record:comment:only': 390,
+                           'lk:record:dash:first': 830,
+                           'lk:record:dash:last': 800,
+                           'lk:record:dash:middle': 720,
+                           'lk:record:dash:only': 390,
+                           'lk:record:dot:first': 840,
+                           'lk:record:dot:last': 810,
+                           'lk:record:dot:middle': 750,
+                           'lk:record:dot:only': 380,
+                           'lk:record:field-line:first': 840,
+                           'lk:record:field-line:last': 810,
+                           'lk:record:field-line:middle': 750,
+                           'lk:record:field-line:only': 380,
+                           'lk:record:plus:first': 820,
+                           'lk:record:plus:last': 820,
+                           'lk:record:plus:middle': 740,
+                           'lk:record:plus:only': 390,
+                           'lk:records-or-structured-fields-follow': 20000,
+                           'lk:via:dumped-text:bfile': 10000,
+                           'lk:via:dumped-text:bytes': 10000,
+                           'lk:via:dumped-text:clear-signed-bfile': 1200,
+                           'lk:via:dumped-text:clear-signed-bytes': 1200,
+                           'lk:via:dumped-text:clear-signed-file': 1200,
+                           'lk:via:dumped-text:clear-signed-iter-lines': 1200,
+                           'lk:via:dumped-text:clear-signed-iter-str': 1300,
+                           'lk:via:dumped-text:clear-signed-lines': 1200,
+                           'lk:via:dumped-text:clear-signed-lines_nonl': 1200,
+                           'lk:via:dumped-text:clear-signed-str': 4400,
+                           'lk:via:dumped-text:file': 10000,
+                           'lk:via:dumped-text:iter-bfile': 3600,
+                           'lk:via:dumped-text:iter-lines': 3600,
+                           'lk:via:dumped-text:iter-str': 3600,
+                           'lk:via:dumped-text:lines': 10000,
+                           'lk:via:dumped-text:lines_nonl': 10000,
+                           'lk:via:dumped-text:str': 10000,
+                           'lk:via:generated-text:bfile': 6600,
+                           'lk:via:generated-text:bytes': 6600,
+                           'lk:via:generated-text:clear-signed-bfile': 800,
+                           'lk:via:generated-text:clear-signed-bytes': 810,
+                           'lk:via:generated-text:clear-signed-file': 770,
+                           'lk:via:generated-text:clear-signed-iter-lines': 760,
+                           'lk:via:generated-text:clear-signed-iter-str': 780,
+                           'lk:via:generated-text:clear-signed-lines': 760,
+                           'lk:via:generated-text:clear-signed-lines_nonl': 790,
+                           'lk:via:generated-text:clear-signed-str': 2700,
+                           'lk:via:generated-text:file': 6600,
+                           'lk:via:generated-text:iter-bfile': 2200,
+                           'lk:via:generated-text:iter-lines': 2200,
+                           'lk:via:generated-text:iter-str': 2200,
+                           'lk:via:generated-text:lines': 6600,
+                           'lk:via:generated-text:lines_nonl': 6600,
+                           'lk:via:generated-text:str': 6600},
+              'monitors': {'M.lk': 140000,
+                           'M.lk.clear-signed': 21000,
+                           'M.lk.dumped-text': 89000,
+                           'M.lk.generated-text': 55000}}}
 for _tier in ('quick', 'thorough'):
     FLOORS[_tier]['counters'].update(_LK_FLOORS[_tier]['counters'])
     FLOORS[_tier]['monitors'].update(_LK_FLOORS[_tier]['monitors'])
